@@ -49,7 +49,7 @@ impl Log {
         }
 
         let current_thread = thread::current();
-        let thread_id = current_thread.name().unwrap();
+        let thread_id = current_thread.name().unwrap_or("unnamed");
 
         let log_request_response = format!("\n\nRequest (thread id: {} peer address is {}):\n  {} {} {}  {}\n  Body: {} byte(s) total (including default initialization vector)\nEnd of Request\nResponse:\n  {} {} {}\n\n  Body: {} part(s), {} byte(s) total\nEnd of Response",
                                            thread_id,
